@@ -71,7 +71,7 @@ PROPS['C04'] = dict(
     outside=OUTSIDE_COMMON,
     runs=both('h_graph_n2', covers=[1, 2]) + [R('h_graph_n3', 'fa', 'release', covers=[1, 2])]
          + [R('h_sat_strong', 'faw', covers=[1, 2]), R('h_panic_n2', covers=[1]), R('h_unwrap', covers=[1, 2]), R('h_nest_n2', covers=[1]), R('h_panic_n3', covers=[1]), R('h_prog_k3', covers=[1])]
-         + [R('h_panic_n3_hist', tiers=T, covers=[1]), R('h_prog_k4', tiers=T, covers=[1])]
+         + [R('h_panic_n3_hist', tiers=T, covers=[1]), R('h_prog_k4', tiers=T, covers=[1]), R('h_prog_k4', 'fa', 'release', T, covers=[1])]
          + twin('h_graph_twin'),
 )
 PROPS['C05'] = dict(
@@ -137,7 +137,7 @@ PROPS['C11'] = dict(
            "set is predicted for finalizer-free programs of N<=3 nodes",
     outside=OUTSIDE_COMMON,
     runs=both('h_buffer_n3', covers=[1]) + [R('h_buffer_n3', 'none', covers=[1]), R('h_unwrap', covers=[1, 2]), R('h_nest_n2', covers=[1])]
-         + [R('h_fin_n2', covers=[1, 2]), R('h_panic_n3', covers=[1]), R('h_cyclic', 'faw', covers=[1, 2, 3]), R('h_prog_k3', covers=[1]), R('h_prog_k3', 'none', covers=[1]), R('h_prog_k4', tiers=T, covers=[1])]
+         + [R('h_fin_n2', covers=[1, 2]), R('h_panic_n3', covers=[1]), R('h_cyclic', 'faw', covers=[1, 2, 3]), R('h_prog_k3', covers=[1]), R('h_prog_k3', 'none', covers=[1]), R('h_prog_k4', tiers=T, covers=[1]), R('h_prog_k4', 'fa', 'release', T, covers=[1])]
          + twin('h_graph_twin'),
 )
 PROPS['C12'] = dict(
